@@ -2,7 +2,7 @@
    model (instantiated with the Transform.v models plus the harness' plugin transformations)
    on what the Go harness ran and compares with what the implementation did. *)
 From Coq Require Import String.
-From Verif Require Import Base Transform TCache.
+From Verif Require Import Base Transform CaseMap TCache.
 Local Open Scope nat_scope.
 
 (* transformations of the correspondence: the modelled built-ins, plus the plugin
@@ -12,13 +12,19 @@ Local Open Scope nat_scope.
    (a name containing '+', F38): upper-case, then append "!" *)
 Inductive ctf := CT (t : tid) | CFail (n : nat) | CId (n : nat) | CBang.
 
+(* lo / up: the Unicode case tables regenerated from Go's unicode package (VerifGen.FactsC14);
+   built-ins go through CaseMap.apply_tu lo up: lowercase / uppercase are strings.ToLower / ToUpper on
+   ARBITRARY bytes (non-ASCII runes mapped, invalid UTF-8 rewritten to U+FFFD), the rest is apply_t *)
+Section Reg.
+Variables lo up : list case_range.
 Definition ctf_apply (c : ctf) (s : bytes) : tres :=
   match c with
-  | CT t => apply_t t s
+  | CT t => apply_tu lo up t s
   | CFail _ => mk_tres s false true
   | CId _ => mk_tres s false false
-  | CBang => mk_tres (map ascii_upper s ++ [33%N]) true false
+  | CBang => mk_tres (t_out (t_case up s) ++ [33%N]) true false
   end.
+End Reg.
 
 Definition tid_code (t : tid) : nat :=
   match t with
@@ -128,6 +134,9 @@ Fixpoint cw_check (items : list cw_item) (outs : list (list bytes * list ctf)) :
 
 Definition cw_phases : list nat := [1; 2; 3; 4; 5].
 
+Section Ok.
+Variables lo up : list case_range.
+Notation ctf_apply := (ctf_apply lo up).
 Definition ok (c : case) : bool :=
   match c with
   | CD rules vals calls obs dump =>
@@ -158,4 +167,6 @@ Definition ok (c : case) : bool :=
     nats_eqb (canon (concat (map (fun r => ir_pids (fst r)) rs))) (canon (concat pids))
   end.
 
-Definition mismatches (l : list case) : list nat := mismatches_of ok l.
+End Ok.
+
+Definition mismatches (lo up : list case_range) (l : list case) : list nat := mismatches_of (ok lo up) l.
